@@ -142,6 +142,10 @@ typedef struct vfault_s {
   int kind_filter;       /* persistent mode: only calls of this kind class (0=all mutating) */
   int fired;             /* number of times a fault was delivered */
   int pending_err;       /* the call after a short transfer fails */
+  /* selector plan (schedule-independent site name): the sel_ord-th (1-based) call of kind sel_kind on a
+   * file whose base name contains sel_name fails once with err; sel_seen counts the matches so far */
+  int sel_kind, sel_ord, sel_seen;
+  char sel_name[16];
 } vfault_t;
 
 typedef struct vfs_s {
